@@ -19,6 +19,8 @@ PROP = "C14"
 ENV = {"UBSAN_OPTIONS": "exitcode=78:print_stacktrace=0:halt_on_error=1"}
 RUN = os.path.join(build.BUILD, "run")
 TWIN = None
+VG = None
+ENV_VG = {"CLISIM_NO_CALIBRATION": "1", "VERIF_WATCHDOG_S": "900"}
 # heap garbage differs between the twins as well (ASan fills fresh allocations)
 ENV_A = dict(ENV, ASAN_OPTIONS="malloc_fill_byte=190:max_malloc_fill_size=65536")
 ENV_Z = dict(ENV, ASAN_OPTIONS="malloc_fill_byte=0:max_malloc_fill_size=65536")
@@ -72,6 +74,19 @@ def build_engines(want_plain=False):
     global TWIN
     TWIN = build.link([eo, mz] + zobjs, os.path.join(build.BIN, "clisim_z"), ["-fsanitize=address,undefined"] + WRAP)
     l2 = build.link([sh, m2] + objs, os.path.join(build.BIN, "gm2calc_l2"), ["-fsanitize=address,undefined", "-ldl"])
+    # in-process worker WITHOUT sanitizers, to be run under valgrind (uninitialised-memory clause): thousands of plans
+    # per valgrind process instead of one process per plan
+    global VG
+    VG = None
+    if shutil.which("valgrind"):
+        pflags0 = build.VARIANTS["plain"] + build.INCLUDES
+        eo_p, m1_p = build.compile_many([(os.path.join(HERE, "clisim.cpp"), pflags0 + ["-DCLISIM_NO_ALLOC_COUNT"], "vg"), (main_src, pflags0 + ["-include", os.path.join(HERE, "prelude.h")], "l1vg")])
+        vgbin = build.link([eo_p, m1_p] + build.lib_objects("plain"), os.path.join(build.BIN, "clisim_plain"), WRAP)
+        VG = os.path.join(build.BIN, "clisim_vg")
+        script = "#!/bin/sh\nexec %s -q --error-exitcode=75 --exit-on-first-error=yes %s \"$@\"\n" % (shutil.which("valgrind"), vgbin)
+        if not os.path.exists(VG) or open(VG).read() != script:
+            open(VG, "w").write(script)
+            os.chmod(VG, 0o755)
     pl = None
     if want_plain:
         pobjs = build.lib_objects("plain")
@@ -231,6 +246,8 @@ def main(a):
                 x = orch.exec_plan(l1, rep["ops"], ENV_A, args=wargs)
                 y = orch.exec_plan(TWIN, rep["ops"], ENV_Z, args=wargs)
                 got = "uninitialised_read" if x["hash"] != y["hash"] else "OK"
+            elif rep.get("engine") == "clisim-vg":
+                got = orch.exec_plan(VG, rep["ops"], ENV_VG, args=wargs, timeout=1200)["sig"] if VG else "valgrind not available"
             elif rep.get("engine") == "clisim-valgrind":
                 r = L2Runner(l1, l2, manifest, "rp")
                 try:
@@ -350,6 +367,21 @@ def main(a):
                         twin_cands.append({"run": r, "kind": kind, "seed": seed})
         t_twin = time.time() - t1
 
+        # ---- uninitialised-memory clause, second instrument: the un-sanitised program in-process under valgrind
+        t1 = time.time()
+        vgin = {"runs": 0, "errors": 0}
+        vg_cands = []
+        if VG and not orch.saturated():
+            for kind, seed, count in (("CORPUS", 0, counts.get("CORPUS", 0)), ("EDGE", 0, counts.get("EDGE", 0)), ("BLOCKSQ", 0, counts.get("BLOCKSQ", 0)),
+                                      ("LIGHT", a.seed, 600 if not thorough else 20000), ("RUNS", a.seed, 400 if not thorough else 20000)):
+                rv = orch.run_batch(VG, kind, seed, 0, count, nw, ENV_VG, chunk=100, args=wargs, stall=900)
+                vgin["runs"] += rv["executed"]
+                for c in rv["candidates"]:
+                    if c["sig"].endswith(":valgrind"):
+                        vgin["errors"] += 1
+                        vg_cands.append(dict(c, kind=kind, seed=seed))
+        t_vgin = time.time() - t1
+
         kinds = {"corpus": "CORPUS", "prefix": pk, "token": tk, "random": "RUNS", "light": "LIGHT", "config": ck, "arglen": "ARGLEN", "cmdline": "CMDLINE", "env": "ENV", "blocks": bk, "boundary": "BOUNDARY", "scale": sk, "knob": "KNOB"}
         cands = []
         for name, part in parts.items():
@@ -361,6 +393,10 @@ def main(a):
 
         viol, known_hits, herr = orch.process_candidates(PROP, "clisim", l1, cands, get_plan, ENV, args=wargs, fresh_process_is_truth=True)
         harness_errors += herr
+        if vg_cands:
+            v2, k2, h2 = orch.process_candidates(PROP, "clisim-vg", VG, vg_cands, get_plan, ENV_VG, args=wargs, exec_timeout=1200, min_budget=60, max_report=4)
+            viol += v2
+            harness_errors += h2
         for c in twin_cands[:3]:
             plan = get_plan(c)
 
@@ -544,7 +580,7 @@ def main(a):
                                              "what": "every command line of one or two atoms, and `~`-spelt input names for each input type, under each of four non-ordinary process environments (every variable unset; every common variable empty; 4096 characters long; odd values); getenv() is answered by the simulator, the names asked for are listed as probe_getenv_*",
                                              "complete": parts["env"]["executed"] == counts.get("ENV", 0)},
                     "present_and_absent_blocks": {"kind": bk, "runs": parts["blocks"]["executed"], "of": counts.get(bk, 0),
-                                                  "what": "every block of " + ("every shipped file" if thorough else "input/example.* and every fourth test point") + " removed / reduced to its definition line / reduced to its last entry, and every pair of blocks of input/example.* removed together (also compared between the uninitialised-memory twins)",
+                                                  "what": "every block of " + ("every shipped file" if thorough else "input/example.* and every fourth test point") + " removed / reduced to its definition line / reduced to its last entry, every pair of blocks of input/example.* removed together, and every block of input/example.* renamed to / cloned under each of 78 block names of the SLHA conventions and common spectrum generators (also compared between the uninitialised-memory twins)",
                                                   "complete": parts["blocks"]["executed"] == counts.get(bk, 0)},
                     "boundary_documents": {"kind": "BOUNDARY", "runs": parts["boundary"]["executed"], "of": counts.get("BOUNDARY", 0),
                                            "what": "one CR / one NUL inserted at every offset of input/example.*; the examples padded to 64 KiB with one special byte (CR, LF, NUL, #, space, letter) at every offset 2^k-2..2^k+1, k=8..16; %d curated edge documents (DOS/Mac line endings, torn between CR and LF, no final newline, torn inside the first block header, lengths exactly at 2^k-1, 2^k, 2^k+1); each via stdin and via path" % counts.get("EDGE", 0),
@@ -571,6 +607,7 @@ def main(a):
                 "exit_status_histogram": {k[7:]: v for k, v in counters.items() if k.startswith("status_")},
                 "layer_L2": dict(l2stats, what="real executable (ASan+UBSan+LSan) as a process with read()/write() shim: short reads, EINTR, EIO, ENOSPC", wall_s=round(t_l2, 1)),
                 "valgrind_sample": vg,
+                "valgrind_in_process": dict(vgin, wall_s=round(t_vgin, 1), what="the program WITHOUT sanitizers executed in-process (same simulated world) under valgrind memcheck, thousands of plans per valgrind process: intact corpus, the curated edge documents, the block presence/rename/clone enumeration, seeded LIGHT and random plans; the first memcheck error ends the worker and is attributed to the run"),
                 "uninitialised_memory_twins": dict(twin, what="runs (intact corpus, LIGHT plans, token replacements on input/example.*) executed in two builds whose uninitialised stack (-ftrivial-auto-var-init=pattern|zero) and fresh heap (ASan malloc_fill_byte) contents differ; outputs compared", wall_s=round(t_twin, 1)),
                 "determinism_gate": {"runs_compared": compared, "hash_mismatches": len(mism), "of_which_process_reuse_artefacts_confirmed_by_fresh_processes": reuse_artefacts},
                 "worker_deaths": sum(p["deaths"] for p in parts.values()),
